@@ -72,7 +72,7 @@ Definition no_rotate_to (v : N) (o : op) : Prop :=
 Lemma dead_preserved v o d :
   no_rotate_to v o -> find_row d v = None -> find_row (apply_op o d) v = None.
 Proof.
-  unfold find_row. intros Hn Hd. rewrite find_none_iff in *.
+  unfold find_row, matches. intros Hn Hd. rewrite find_none_iff in *.
   intros x Hx.
   destruct o as [id|id|id nv|id e|id p].
   - (* Revoke *) cbn in Hx. apply in_map_iff in Hx. destruct Hx as [r [<- Hr]]. specialize (Hd r Hr).
@@ -121,6 +121,7 @@ Section Invariant.
     | M1 w _ => (w <= cur s)%nat
     | M2 w _ => (w <= s_inv s)%nat
     | MDone _ _ => True
+    | J0 | J1 _ | JDone => True
     end.
 
   Definition holders (ts : list pc) : nat := list_sum (map holding ts).
@@ -165,7 +166,7 @@ Section Invariant.
   Lemma Tinv_push s d t :
     holding t = O -> Tinv s t -> Tinv (push_db d s) t.
   Proof.
-    destruct t as [v|v n m|v n m r w|v n m i w|v n m [[i w]|]|m o|w ok|w ok|w ok]; cbn [Tinv holding]; intros Hh H; auto; try discriminate.
+    destruct t as [v|v n m|v n m r w|v n m i w|v n m [[i w]|]|m o|w ok|w ok|w ok| |nj|]; cbn [Tinv holding]; intros Hh H; auto; try discriminate.
     - destruct H as [[H1 H2] H3]. rewrite cur_push. split; [lia|]. apply justified_push; assumption.
     - rewrite cur_push. lia.
   Qed.
@@ -208,7 +209,7 @@ Section Invariant.
     intros (Hg & Hc & Ht & Hn & Hch) Hi Hs.
     assert (Hti : Tinv s t) by (rewrite Forall_forall in Ht; apply Ht; eapply nth_error_In; eauto).
     pose proof (holders_set_nth ts i t t' Hi) as Hh.
-    destruct t as [v|v now0 minv|v now0 minv r w|v now0 minv inf w|v now0 minv res|m o|w ok|w ok|w ok]; cbn [step] in Hs.
+    destruct t as [v|v now0 minv|v now0 minv r w|v now0 minv inf w|v now0 minv res|m o|w ok|w ok|w ok| |nj|]; cbn [step] in Hs.
     - (* V0: lookup *)
       destruct (lookup N.eqb v (s_cache s)) as [e|] eqn:El.
       + destruct (s_now s <? ce_exp e) eqn:Elt; inversion Hs; subst; clear Hs.
@@ -296,7 +297,7 @@ Section Invariant.
       apply Inv_intro; [sst; lia|constructor| |sst; lia|exact Hch].
       apply Forall_set_nth.
       + rewrite Forall_forall in *. intros t0 Ht0. specialize (Ht _ Ht0).
-        destruct t0 as [?|? ? ?|? ? ? ? ?|? ? ? ? ?|? ? ? [[? ?]|]|? ?|? ?|? ?|? ?]; cbn [Tinv] in *; try exact Ht.
+        destruct t0 as [?|? ? ?|? ? ? ? ?|? ? ? ? ?|? ? ? [[? ?]|]|? ?|? ?|? ?|? ?| |?|]; cbn [Tinv] in *; try exact Ht.
         sst. lia.
       + cbn [Tinv]. sst. lia.
     - (* M2: the mutation call returns *)
@@ -304,9 +305,20 @@ Section Invariant.
       apply Inv_intro; [sst; lia|exact Hc| |sst; lia|exact Hch].
       apply Forall_set_nth.
       + rewrite Forall_forall in *. intros t0 Ht0. specialize (Ht _ Ht0).
-        destruct t0 as [?|? ? ?|? ? ? ? ?|? ? ? ? ?|? ? ? [[? ?]|]|? ?|? ?|? ?|? ?]; cbn [Tinv] in *; try exact Ht.
+        destruct t0 as [?|? ? ?|? ? ? ? ?|? ? ? ? ?|? ? ? [[? ?]|]|? ?|? ?|? ?|? ?| |?|]; cbn [Tinv] in *; try exact Ht.
         sst. lia.
       + exact I.
+    - discriminate.
+    - (* J0: the janitor reads the clock *)
+      inversion Hs; subst; clear Hs.
+      apply Inv_intro; [exact Hg|exact Hc| |sst; lia|exact Hch].
+      apply Forall_set_nth; [exact Ht|]. exact I.
+    - (* J1: expired entries deleted under the write lock *)
+      inversion Hs; subst; clear Hs.
+      apply Inv_intro; [exact Hg| | |sst; lia|exact Hch].
+      + change (Forall (entry_ok s) (filter (fun ke => negb (ce_exp (snd ke) <? nj)) (s_cache s))).
+        rewrite Forall_forall in *. intros ke Hke. apply filter_In in Hke. exact (Hc _ (proj1 Hke)).
+      + apply Forall_set_nth; [exact Ht|]. exact I.
     - discriminate.
   Qed.
 
@@ -435,7 +447,7 @@ Proof.
 Qed.
 
 (* ---- witnesses ------------------------------------------------------------------------ *)
-Definition tok1 (e : option Z) : row := {| r_id := 1; r_val := 7; r_enabled := true; r_exp := e; r_perms := 3 |}.
+Definition tok1 (e : option Z) : row := {| r_id := 1; r_val := 7; r_enabled := true; r_exp := e; r_perms := 3; r_legacy := false |}.
 
 (* with a second pooled connection the revoke is no longer excluded while a verification
    sits between its token query and its cache insert *)
